@@ -263,7 +263,12 @@ func (cs *Contracts) loadFile(file, pkgPath string) error {
 			if len(parts) != 2 {
 				return fmt.Errorf("%s:%d: devirt needs 'Iface => Concrete'", rl.file, rl.line)
 			}
-			cs.Devirt[strings.TrimSpace(parts[0])] = strings.TrimSpace(parts[1])
+			key := strings.TrimSpace(parts[0])
+			if pkgPath != "" && strings.HasPrefix(key, "local ") {
+				// `devirt local I => T`: only for units of this package
+				key = pkgPath + "|" + strings.TrimSpace(strings.TrimPrefix(key, "local "))
+			}
+			cs.Devirt[key] = strings.TrimSpace(parts[1])
 			cur = nil
 		case "spec":
 			a, b := splitFirst(rest)
